@@ -881,7 +881,16 @@ def cmp_c14(case, i, m):
                 about, want = kids[t], m["byFocus"][kids[t]]
             if tl != want:
                 return ("trace-location", f"result about {t}: the trace of `{comp}` is about node {about} and carries location {tl}, but that node's lexical entry says {want}")
-        if kids and sorted(c for c in comps if c) != ["pattern", "rego"]:
+        if case.get("nested"):
+            subs = real.get("subResults") or []
+            if [sr.get("focus") for sr in subs] != [kids[t]]:
+                return ("~sub-result-shape", f"result about {t}: expected one sub-result about {kids[t]}, got {[sr.get('focus') for sr in subs]}")
+            want = m["byFocus"][kids[t]]
+            for sr in subs:
+                for loc in [sr.get("location")] + list(sr.get("traceLocations") or []):
+                    if loc != want:
+                        return ("sub-result-location", f"sub-result about {sr.get('focus')} (inside the result about {t}) carries location {loc}, but that node's lexical entry says {want}")
+        elif kids and sorted(c for c in comps if c) != ["pattern", "rego"]:
             return ("~trace-shape", f"result about {t}: expected one pattern and one rego trace, got {comps}")
     if not i.get("sameWithoutMaps"):
         return ("maps-change-results", "results with and without source maps differ in more than the location")
@@ -904,7 +913,7 @@ def check_C14(ctx):
     except Broken as b:
         broken.append(b)
     ctx.coverage["rule"] = ("1..6 target nodes; per node a node-level lexical entry, a property-level entry only, both, or none; ranges with magnitudes 0, <10, <1e5, ~2^53 and up to 30 digits; 0..3 additional "
-                            "source files listing random subsets of the nodes (a node may be listed by several); source information with a root location, without one, or absent altogether; data without any source maps; one case in three uses a failure branch of two constraints (or / if-then, both operand orders) one of which is embedded Rego that designates ANOTHER node ($traceNode) with its own entry and file; also checked: the same graph without source maps gives identical results minus locations")
+                            "source files listing random subsets of the nodes (a node may be listed by several); source information with a root location, without one, or absent altogether; data without any source maps; the failing constraint varies over six kinds; unusual file references (spaces, non-ASCII, upper-case scheme, drive path, empty fragment); nested constraints whose sub-results are about linked nodes with or without a class; one case in three uses a failure branch of two constraints (or / if-then, both operand orders) one of which is embedded Rego that designates ANOTHER node ($traceNode) with its own entry and file; also checked: the same graph without source maps gives identical results minus locations")
     ctx.assumptions += ["regex.find_n and to_number of the engine are modelled by digitRuns/readNat (tied by this correspondence, including 30-digit numbers)"]
     return conclude(ctx, broken, trusted=TRUST_COMMON)
 
